@@ -9,12 +9,15 @@ import (
 // genC15: structured formats with 0-3 %w at any position.
 func genC15(rt *rapid.T) *FmtCase {
 	c := &FmtCase{Route: "HelperForErrorf"}
-	fc := &fmtConfig{noW: true, noTp: false, noZeroMinus: true}
+	fc := &fmtConfig{noW: true, noTp: false, noZeroMinus: true, noHugeNumbers: true}
 	vc := &valConfig{maxDepth: 1, noRedactable: true}
 	if rapid.Bool().Draw(rt, "fmtcompat") {
 		vc.fmtCompat = true
 	}
 	n := rapid.IntRange(0, 4).Draw(rt, "ndirs")
+	if rapid.IntRange(0, 199).Draw(rt, "manyw") == 77 {
+		n = []int{255, 256, 257, 258, 300, 513}[rapid.IntRange(0, 5).Draw(rt, "nmany")] // a very long format
+	}
 	missing := false
 	for i := 0; i < n; i++ {
 		if rapid.IntRange(0, 2).Draw(rt, "haslit") > 0 {
